@@ -8,28 +8,32 @@ CONSTANTS MaxDup, MaxDropTotal, Emit   \* MaxDropTotal bounds the losses of one 
 VARIABLES node, net, triggered, wt, dups, dropped, obs, hist
 vars == <<node, net, triggered, wt, dups, dropped, obs, hist>>
 
-ASSUME PrintT(<<"CONST", ToJson([n |-> N, t |-> T, ids |-> Ids, flavour |-> Flavour])>>)
+ASSUME PrintT(<<"CONST", ToJson([n |-> N, t |-> T, rounds |-> Rounds, flavour |-> Flavour])>>)
 
 NoObs == [verdict |-> "-", prod |-> <<>>]
 Act(a, n, m) == [a |-> a, n |-> n, m |-> m]
 
+(* wt[r] = the nodes that will be triggered for round r (any subset of size >= T, per round);
+   a node is triggered for its rounds in order *)
 Init ==
-    /\ wt \in {S \in SUBSET Nodes : Cardinality(S) >= T}
+    /\ wt \in [RoundIdx -> {S \in SUBSET Nodes : Cardinality(S) >= T}]
     /\ node = [i \in Nodes |-> NodeInit]
-    /\ net = EmptyBag /\ triggered = {} /\ dups = 0 /\ dropped = [i \in Nodes |-> 0]
+    /\ net = EmptyBag /\ triggered = [r \in RoundIdx |-> {}] /\ dups = 0
+    /\ dropped = [i \in Nodes |-> [r \in RoundIdx |-> 0]]
     /\ obs = NoObs /\ hist = <<>>
 
 Quiescent == triggered = wt /\ net = EmptyBag
 
-Trig(i) ==
-    /\ i \in wt \ triggered
-    /\ LET r == TriggerNode(node[i], i)
-           p == Publish(r.nd, i, r.out, 1) IN
-       /\ node' = [node EXCEPT ![i] = r.nd]
+Trig(i, r) ==
+    /\ i \in wt[r] \ triggered[r]
+    /\ \A q \in RoundIdx : (q < r /\ i \in wt[q]) => i \in triggered[q]
+    /\ LET tr == TriggerNode(node[i], i, r)
+           p == Publish(tr.nd, i, tr.out, 1) IN
+       /\ node' = [node EXCEPT ![i] = tr.nd]
        /\ net' = net (+) p.pk
        /\ obs' = [verdict |-> "-", prod |-> p.prod]
-    /\ triggered' = triggered \cup {i}
-    /\ hist' = Append(hist, Act("trig", i, SharesMsg(i)))
+    /\ triggered' = [triggered EXCEPT ![r] = @ \cup {i}]
+    /\ hist' = Append(hist, Act("trig", i, SharesMsg(i, r)))
     /\ UNCHANGED <<wt, dups, dropped>>
 
 Dlv(pk) ==
@@ -52,14 +56,15 @@ Dup(pk) ==
     /\ hist' = Append(hist, Act("dup", pk.d, pk.m))
     /\ UNCHANGED <<node, triggered, wt, dropped>>
 
-(* loss of share messages: at most N - T per receiver, and never more than leaves the receiver T
-   shares (its own included) from the nodes that are triggered *)
-DropBudget == Cardinality(wt) - T
+(* loss of share messages: per receiver and round at most N - T, and never more than leaves the
+   receiver T shares (its own included) from the nodes that are triggered for the round *)
+DropBudget(r) == Cardinality(wt[r]) - T
+DropTotal == FoldFunctionOnSet(+, 0, [i \in Nodes |-> FoldFunctionOnSet(+, 0, dropped[i], RoundIdx)], Nodes)
 DropShare(pk) ==
-    /\ pk \in BagToSet(net) /\ pk.m.t = "shares" /\ dropped[pk.d] < DropBudget
-    /\ FoldFunctionOnSet(+, 0, dropped, Nodes) < MaxDropTotal
+    /\ pk \in BagToSet(net) /\ pk.m.t = "shares" /\ dropped[pk.d][pk.m.r] < DropBudget(pk.m.r)
+    /\ DropTotal < MaxDropTotal
     /\ net' = [q \in (DOMAIN net) \ {pk} |-> net[q]]
-    /\ dropped' = [dropped EXCEPT ![pk.d] = @ + 1]
+    /\ dropped' = [dropped EXCEPT ![pk.d][pk.m.r] = @ + 1]
     /\ obs' = NoObs
     /\ hist' = Append(hist, Act("drop", pk.d, pk.m))
     /\ UNCHANGED <<node, triggered, wt, dups>>
@@ -67,9 +72,9 @@ DropShare(pk) ==
 (* schedules that reach quiescence are printed: tag B when every node holds every key there, tag L
    (a lead: to be replayed on the real code) when the model says some node does not *)
 EmitStep == (Emit /\ Quiescent') =>
-               PrintT(<<IF P_AllHaveKeys(node') THEN "B" ELSE "L", ToJson([wt |-> SortedSeq(wt), sched |-> hist'])>>)
+               PrintT(<<IF P_AllHaveKeys(node') THEN "B" ELSE "L", ToJson([wt |-> [r \in RoundIdx |-> SortedSeq(wt[r])], sched |-> hist'])>>)
 Next ==
-    /\ \/ \E i \in Nodes : Trig(i)
+    /\ \/ \E i \in Nodes, r \in RoundIdx : Trig(i, r)
        \/ \E pk \in BagToSet(net) : Dlv(pk) \/ Dup(pk) \/ DropShare(pk)
     /\ EmitStep
 Spec == Init /\ [][Next]_vars
